@@ -1,6 +1,8 @@
 """C19 - critical points are found, classified, ordered and selected correctly."""
 import copy
 import json
+
+import numpy as np
 import os
 import random
 import re
@@ -56,10 +58,28 @@ def make_cases(tier, seed):
                 for sign in (1, -1):
                     cases.append({"id": len(cases) + 1, "family": "quad_%s_%s_%s" % ("X" if k < 0 else "O", str(fr).replace(".", "p"), str(fz).replace(".", "p")),
                                   "lobes": [["quadnode", nR // 2 - 2, fr, nZ // 2, fz, k]], "nR": nR, "nZ": nZ, "sign": sign, "psinorm_sol": 1.1, "nx_inter_sep": 0, "notok": 1})
+    # tilted, elongated critical points (the mixed second derivative is not zero): quadratic O- and X-points, and a lower single null with a
+    # tilted elliptical core
+    for (nR, nZ) in res[:2]:
+        for (a, b) in [(2.0, 1.0), (3.24, 1.0), (6.0, 1.0), (2.0, -1.0), (1.0, -3.0)]:
+            for th in ([30, 45, -45] if tier == "quick" else [15, 30, 45, 60, -45, 75]):
+                for sign in (1, -1):
+                    cases.append({"id": len(cases) + 1, "family": "quadrot_%s_%s_%s" % ("X" if b < 0 else "O", str(a).replace(".", "p"), th),
+                                  "lobes": [["quadrotnode", nR // 2 - 2, 0.3, nZ // 2 + 1, 0.2, a, b, th]], "nR": nR, "nZ": nZ, "sign": sign, "psinorm_sol": 1.1,
+                                  "nx_inter_sep": 0, "notok": 1})
+    for (nR, nZ) in res[:2]:
+        for (kap, th) in [(1.8, 25.0), (1.5, -40.0), (1.8, 0.0)]:
+            for sign in (1, -1):
+                lb = [[1, 1.5, 0.15, 0.3 / np.sqrt(kap), 0.3 * np.sqrt(kap), th], [1, 1.5, -0.45, W]]
+                cases.append({"id": len(cases) + 1, "family": "lsn_ellip_%s_%s" % (str(kap).replace(".", "p"), int(th)), "lobes": lb, "nR": nR, "nZ": nZ, "sign": sign,
+                              "psinorm_sol": 1.1, "nx_inter_sep": 0})
     # random perturbations of the lobes (thorough: more)
     for k in range(12 if tier == "quick" else 150):
         name = rng.choice(list(BASE))
         lb = [[a * rng.uniform(0.9, 1.1), r + rng.uniform(-0.03, 0.03), z + rng.uniform(-0.03, 0.03), w * rng.uniform(0.93, 1.07)] for a, r, z, w in BASE[name]]
+        if rng.random() < 0.5:      # half of them with a tilted elliptical first lobe
+            kap, th = rng.uniform(1.2, 2.0), rng.uniform(-60, 60)
+            lb[0] = [lb[0][0], lb[0][1], lb[0][2], lb[0][3] / np.sqrt(kap), lb[0][3] * np.sqrt(kap), th]
         nR, nZ = rng.choice([(65, 65), (33, 33), (81, 57)])
         cases.append({"id": len(cases) + 1, "family": name + "~", "lobes": lb, "nR": nR, "nZ": nZ, "sign": rng.choice([1, -1]), "psinorm_sol": rng.choice(SOLS[name]),
                       "nx_inter_sep": 1})         # (a perturbed double null is never exactly connected)
